@@ -29,6 +29,7 @@ struct thr {
     uint64_t last_val;
     int last_valid;
     int spin;
+    int same_loads;
     int joined;
 };
 
@@ -166,6 +167,8 @@ static void reschedule(int kind) {
     }
 }
 
+static void post_point(void);
+
 static void point(void) {
     int me = cur;
     T[me].last_valid = 0;
@@ -246,6 +249,7 @@ int vs_thread_create(void (*fn)(void*), void* arg) {
         vs_fail("harness/pthread_create", "pthread_create failed");
     }
     pthread_attr_destroy(&at);
+    post_point();
     return t;
 }
 
@@ -300,9 +304,25 @@ static void release_mutex(int m) {
         if (T[t].state == T_BLK_MUTEX && T[t].obj == m) T[t].state = T_RUNNABLE;
 }
 
+/* A scheduling point AFTER a release-type operation (unlock, atomic write/RMW, thread creation): lets other
+ * threads run between the release and the releasing thread's following plain accesses, e.g. a thread that
+ * publishes work and then still touches an object the work may already have deleted. */
+static void post_point(void) {
+    if (!SH->user[3]) return;
+    int me = cur;
+    T[me].last_valid = 0;
+    reschedule(VS_K_NORMAL);
+}
+
 void vs_mutex_unlock(int m) {
     if (!active) return;
     release_mutex(m);
+    post_point();
+}
+
+void vs_atomic_written(void) {
+    if (!active) return;
+    post_point();
 }
 
 int vs_cv_new(void) { return nCV++; }
@@ -365,7 +385,14 @@ void vs_atomic_point(const void* addr, int is_load) {
 void vs_atomic_loaded(const void* addr, uint64_t val) {
     if (!active) return;
     int me = cur;
-    if (T[me].last_valid && T[me].last_addr == addr && T[me].last_val == val) T[me].spin = 1;
+    /* a spin iteration: the third consecutive load of the same atomic returning the same value with no
+     * other synchronisation operation of this thread in between (two in a row is common in straight-line
+     * code, e.g. a flag tested twice) */
+    if (T[me].last_valid && T[me].last_addr == addr && T[me].last_val == val) {
+        if (++T[me].same_loads >= 2) T[me].spin = 1;
+    } else {
+        T[me].same_loads = 0;
+    }
     T[me].last_addr = addr;
     T[me].last_val = val;
     T[me].last_valid = 1;
